@@ -137,10 +137,12 @@ SPECS["C08"] = dict(
 def c10_jobs(tier):
     if tier == "quick":
         return [dict(harness="c10_bkldlt", pattern=r"^bk/n[12]/|^bk-lower-vs-upper/n[12]$|^bk-reuse|^wrapper/.*/n[12]$|^bk-complex/n[12]/", label="n<=2, all layouts, real+complex", deadline=200),
-                dict(harness="c10_bkldlt", pattern=r"^bk/n3/(lower|upper)/colmajor/shift|^bk/n3/upper/rowmajor/shift", label="n=3 real", deadline=280)]
+                dict(harness="c10_bkldlt", pattern=r"^bk/n3/(lower|upper)/colmajor/shift|^bk/n3/upper/rowmajor/shift", label="n=3 real", deadline=280),
+                dict(harness="c10_bkldlt", pattern=r"^bk-pivot-rule/", label="pivot search + selection = Bunch-Kaufman rule, arbitrary reduced matrices n<=5, every step k", deadline=200)]
     return c10_jobs("quick") + [dict(harness="c10_bkldlt", pattern=r"^bk/n3/|^bk-lower-vs-upper/n3$|^wrapper/.*/n3$", label="n=3 real all layouts, wrappers n=3 [budgeted]", deadline=1200, budget=True),
             dict(harness="c10_bkldlt", pattern=r"^bk-complex/n3/", label="n=3 complex Hermitian [budgeted]", deadline=1200, cap=(20, 120), budget=True),
-            dict(harness="c10_bkldlt", pattern=r"^bk/n4/lower/colmajor/shift", label="n=4 real [budgeted]", deadline=1200, cap=(20, 120), budget=True)]
+            dict(harness="c10_bkldlt", pattern=r"^bk/n4/lower/colmajor/shift", label="n=4 real [budgeted]", deadline=1200, cap=(20, 120), budget=True),
+            dict(harness="c10_bkldlt", pattern=r"^bk-growth/n3/step1/", label="element-growth bound after one real elimination step, n=3 [budgeted]", deadline=900, cap=(20, 200), budget=True)]
 
 
 SPECS["C10"] = dict(
@@ -152,11 +154,15 @@ SPECS["C10"] = dict(
                  "NumericalIssue; Successful => (A_tri - sigma I) x = b entry-wise and no divisor can be zero; NumericalIssue => det(A - sigma I) = 0 (only exactly "
                  "singular matrices are refused); the solution mentions no junk symbol; lower and upper triangle of the same matrix give identical results; column- and "
                  "row-major input; solve_inplace on a segment; a reused object reports its own status; DenseSymShiftSolve::set_shift throws invalid_argument only for "
-                 "singular matrices and its perform_op solves the shifted system."),
+                 "singular matrices and its perform_op solves the shifted system. Stability mechanism (the exact-arithmetic core of the c*n*eps clause): the real permutate_mat (find_lambda, find_sigma, "
+                 "pivoting_1x1/2x2, interchange_rows) is run from an ARBITRARY reduced matrix (every stored entry a symbol, n<=5, every elimination step k) and z3 proves that the pivot it selects and "
+                 "the permutation it applies are exactly those of the Bunch-Kaufman rule written independently (lambda, first arg-max r, sigma over the whole column r, the four alpha tests); thorough "
+                 "tier: after one real elimination step every entry of the reduced matrix is within (1+1/alpha) resp. (1+2/(1-alpha)) times max|a_ij| (n=3, normalised scaling)."),
     functions=["Spectra::BKLDLT<sym::Real> and BKLDLT<std::complex<sym::Real>> (all members)", "Spectra::DenseSymShiftSolve<sym::Real, Lower|Upper>::set_shift, perform_op"],
-    bounds={"quick": {"real": "n=1,2 all layouts; n=3 three layouts", "complex Hermitian": "n=1,2 all four layouts", "wrappers": "n=1,2"},
-            "thorough": {"real": "n<=3 all layouts, n=4 lower/col-major", "complex Hermitian": "n<=3", "wrappers": "n<=3"}},
-    outside=[ROUNDING, "the c*n*eps residual bound and the growth factor", "sizes above the bound"],
+    bounds={"quick": {"real": "n=1,2 all layouts; n=3 three layouts", "complex Hermitian": "n=1,2 all four layouts", "wrappers": "n=1,2", "pivot rule": "n=2..5, every step k, all stored entries symbolic"},
+            "thorough": {"real": "n<=3 all layouts, n=4 lower/col-major", "complex Hermitian": "n<=3", "wrappers": "n<=3", "growth bound": "n=3, first step, max sub-column entry normalised to 1"}},
+    outside=[ROUNDING, "the c*n*eps residual bound itself (only its mechanism - the pivot rule and, thorough, one-step element growth - is decided)", "sizes above the bound",
+             "growth-bound cases: invariance of rule and bound under A -> cA and sign similarities is argued, not proven (normalisation)"],
     assumptions=["exact real arithmetic"],
     policy=dict(events="violation", allow_cut=False),
     technique="symbolic execution of the real BKLDLT template on symbolic matrices, all pivoting paths; z3/cvc5 NRA verdict per residual entry and per singularity claim",
